@@ -19,7 +19,7 @@ def decode(bs):
 
 def model_says(val):
     """val: parsed (kind, bytes, [lines]) from SemRun.run_out"""
-    (kind, body), lines = val[0], val[1]
+    kind, body, lines = val
     out = "".join(decode(l) + "\n" for l in lines)
     return kind, decode(body) if kind in (0, 1) else body, out
 
